@@ -394,6 +394,9 @@ def evaluate (div : Nat → Rat) (q : Rat) (V : Mat Rat) (total : Nat) (rows : O
 /-- well-formed vote matrix: rectangular and non-negative -/
 def votesOk (V : Mat Rat) : Bool := shapeOk V V.length (nCols V) && V.all (fun r => r.all (fun v => decide (0 ≤ v)))
 
+/-- somebody voted -/
+def hasVotes (V : Mat Rat) : Bool := V.any (fun r => r.any (fun v => decide (0 < v)))
+
 /-- decidable form of the loop invariant: the seat matrix has the shape of the vote matrix, the multipliers are
     positive and every cell lies between its signposts under them -/
 def stateOk (q : Rat) (V : Mat Rat) (s : State) : Bool :=
